@@ -9,6 +9,8 @@ applied to the already filled columns selected by the boolean mask `column i of 
 definition is topological_ordering(A) in the constructor, on the matrix that is deep-copied into self.A;
 (NULL) a None assignment becomes functions.null, which returns 0; (SHAPE) the result is the zeros((n, p))
 array filled column by column, p = len(A).
+Also decided: (HISTORY) no hidden model state; (OWN) constructor and sampler write nothing they do not own - in particular the
+ordering routine leaves the caller's matrix alone; (RNG) one reseed per call, before the loop over the variables.
 Not decided: that topological_ordering returns a topological order (C03); numpy broadcasting of user results.
 """
 import itertools
